@@ -715,14 +715,23 @@ func run(bin, prop, tier string, seed int64, replay string, nshards int, race bo
 		uniq = append(uniq, v)
 	}
 
-	for k, n := range merged.KnownHits {
-		if _, ok := knownStatus[k]; !ok {
-			for _, kf := range known {
-				if kf.Key == k && kf.Status == "known" {
-					knownLines = append(knownLines, fmt.Sprintf("KNOWN-FINDING: property=%s %s [key %s, hit by %d generated cases]", prop, kf.What, k, n))
-					knownStatus[k] = "hit by generated cases"
-				}
+	// every listed known finding gets its line, with what this run saw of it
+	for _, kf := range known {
+		if kf.Status != "known" {
+			continue
+		}
+		if _, done := knownStatus[kf.Key]; done {
+			if n := merged.KnownHits[kf.Key]; n > 0 {
+				knownStatus[kf.Key] += fmt.Sprintf("; hit by %d generated cases", n)
 			}
+			continue
+		}
+		if n := merged.KnownHits[kf.Key]; n > 0 {
+			knownLines = append(knownLines, fmt.Sprintf("KNOWN-FINDING: property=%s %s [key %s, hit by %d generated cases]", prop, kf.What, kf.Key, n))
+			knownStatus[kf.Key] = fmt.Sprintf("hit by %d generated cases", n)
+		} else if kf.Replay == "" {
+			knownLines = append(knownLines, fmt.Sprintf("KNOWN-FINDING: property=%s %s [key %s, not hit by this run's cases]", prop, kf.What, kf.Key))
+			knownStatus[kf.Key] = "listed; not hit by this run's cases"
 		}
 	}
 	sort.Strings(knownLines)
